@@ -224,13 +224,18 @@ PROPS["C15"] = dict(
 )
 
 PROPS["C01"] = dict(
-    modules=["Proofs.C01", "Proofs.C01Sane"],
+    modules=["Proofs.C01", "Proofs.C01Sane", "Proofs.C01Any"],
+    safety_classes={"ok", "err", "err:template-not-found", "err:recovered"},
     theorems=["Goflow.C01.v5_safe", "Goflow.C01.sflow_safe", "Goflow.C01.netflow_safe", "Goflow.C01.iterations_bounded",
               "Goflow.C01.parsePacket_safe", "Goflow.C01.produce_safe", "Goflow.C01.pipe_safe", "Goflow.C01.pipe_history_safe",
-              "Goflow.C01.mapCustom_sane", "Goflow.C01.parseLoop_sane", "Goflow.C01.parsePacket_sane", "Goflow.C01.produce_sane", "Goflow.C01.pipe_sane", "Goflow.C01.pipe_history_sane"],
+              "Goflow.C01.mapCustom_sane", "Goflow.C01.parseLoop_sane", "Goflow.C01.parsePacket_sane", "Goflow.C01.produce_sane", "Goflow.C01.pipe_sane", "Goflow.C01.pipe_history_sane",
+              "Goflow.C01.pipe_any_total", "Goflow.C01.pipe_any", "Goflow.C01.decodeFlowW_eq", "Goflow.C01.wrapped_safe",
+              "Goflow.C01.wrapped_history_safe", "Goflow.C01.wrapped_history_all_safe", "Goflow.C01.recovered_only_if_insane",
+              "Goflow.C01.recovered_state", "Goflow.C01.after_recovered", "Goflow.C01.recovered_rates_untouched",
+              "Goflow.C01.recovered_templates", "Goflow.C01.decoder_wrapper_idle"],
     generators=[dict(name="C01", quick=40, thorough=3000)],
     harness=["impl"],
-    level_text="Theorems: for every byte string, every template / sampling state and every history the decoders, the dissector, the conversion and the pipes of the model end in a result or a returned error (panic and fuel exhaustion are explicit outcomes of the model and proved unreachable; loops need at most 2|d|+3 iterations) — without mappings (pipe_history_safe) and with mappings under Sane: non-negative bit offsets / lengths, destinations other than the two unexported struct members (pipe_history_sane). PARTIAL only in that wall-clock time of the real process is watched by a watchdog, not proved.",
+    level_text="Theorems: for every byte string, every template / sampling state and every history the decoders, the dissector, the conversion and the pipes of the model end in a result or a returned error (panic and fuel exhaustion are explicit outcomes of the model and proved unreachable; loops need at most 2|d|+3 iterations) — without mappings (pipe_history_safe) and with mappings under Sane: non-negative bit offsets / lengths, destinations other than the two unexported struct members (pipe_history_sane). For EVERY configuration the loader accepts (Proofs/C01Any.lean): pipe_any_total — no loop runs out of fuel, whatever the mappings; with the pipes wired as main.go wires them (Goflow/Wrapped.lean: WrapPanicProducer, PanicDecoderWrapper) wrapped_history_all_safe — every outcome along every history is a result, a returned error or a recovered panic, never an escaping one; recovered_state / after_recovered / recovered_rates_untouched / recovered_templates — what a recovered datagram leaves (templates learned, no rate written, messages dropped) and that the next datagram is processed from exactly that state; recovered_only_if_insane. PARTIAL only in that wall-clock time of the real process is watched by a watchdog, not proved.",
 )
 
 PROPS["C02"] = dict(
